@@ -5,7 +5,7 @@ import re
 from .. import rails, colang2
 from ..coflow import TOP, Walker
 from ..pycfg import CFG, walk_no_nested, contained, enclosing_trys, broad_handler, handler_reraises
-from ..source import atoms, atom_key, truth, side, conjuncts, linear, AnalysisError, find_function, first_line, src, functions, qualname
+from ..source import enclosing_function, atoms, atom_key, truth, side, conjuncts, linear, AnalysisError, find_function, first_line, src, functions, qualname
 from . import _railrules
 
 DISP = "nemoguardrails/actions/action_dispatcher.py"
@@ -452,6 +452,40 @@ def e_hide_total_and_consistent(ctx):
                   "the handling makes no assumption about what started the hidden turn" if not asserts else
                   "`%s`: when the failing action ran in a turn that was not started by a user utterance (flow triggered by a custom event) the assertion fails and generate() raises "
                   "AssertionError instead of returning the internal-error message" % first_line(asserts[0], 70), line=(asserts[0].lineno if asserts else h.lineno))
+    # (i') everywhere else the marker is consumed (it travels with the events: history rendering, logging, the server): the branch taken for the marker performs no
+    # operation that raises on an unexpected history (assert, raise, str.index/rindex, list.index, next() without default) - the marker appears exactly when something
+    # already went wrong, and generate() must still return
+    n_cons = 0
+    for rel in ctx.tree.glob("nemoguardrails", (".py",), exclude=("nemoguardrails/eval", "nemoguardrails/cli")):
+        txt = ctx.tree.text(rel)
+        if "hide_prev_turn" not in txt:
+            continue
+        tr_ = ctx.tree.ast(rel)
+        for i in [x for x in ast.walk(tr_) if isinstance(x, ast.If)]:
+            at = [a_ for a_ in atoms(i.test) if isinstance(a_, ast.Compare) and len(a_.ops) == 1 and isinstance(a_.ops[0], (ast.Eq, ast.NotEq))
+                  and any(isinstance(c_, ast.Constant) and c_.value == "hide_prev_turn" for c_ in [a_.left] + a_.comparators)]
+            if not at:
+                continue
+            v = truth(i.test, {atom_key(at[0])[0]: True})
+            if v is None:
+                continue
+            n_cons += 1
+            partial = []
+            for st_ in side(i, v):
+                for x in ast.walk(st_):
+                    if isinstance(x, (ast.Assert, ast.Raise)):
+                        partial.append(x)
+                    elif isinstance(x, ast.Call) and isinstance(x.func, ast.Attribute) and x.func.attr in ("index", "rindex"):
+                        partial.append(x)
+                    elif isinstance(x, ast.Call) and isinstance(x.func, ast.Name) and x.func.id == "next" and len(x.args) == 1:
+                        partial.append(x)
+            fn_ = enclosing_function(i)
+            ctx.check("C03.e.hide-total", rel, qualname(fn_) if fn_ is not None else "<module>", "consumer of the hide_prev_turn marker", not partial,
+                      "the branch that handles the marker cannot raise on an unexpected history" if not partial else
+                      "`%s` in the branch that handles `hide_prev_turn` raises when the history is not what it expects (e.g. a rail action failing in the very first turn, before any "
+                      "user message was recorded): generate() raises instead of returning the internal-error message" % first_line(partial[0], 70),
+                      line=(partial[0].lineno if partial else i.lineno))
+    ctx.floor("C03.e.hide-total", "nemoguardrails", "consumers of the hide_prev_turn marker", n_cons, 1)
     # (ii)
     rt = ctx.tree.ast(RT1)
     psa = None
